@@ -319,7 +319,7 @@ def worker_scenario(arg):
     import warnings
     warnings.simplefilter("ignore")
     np = np_()
-    from ..c19_tasks import describe
+    from ..c19_tasks import describe, content
     out = []
     d = core.scratch_dir("c19w")
     for dname, shape, layout in arg["arrays"]:
@@ -332,7 +332,7 @@ def worker_scenario(arg):
                 continue
             res = joblib.Parallel(n_jobs=2, max_nbytes=mx, backend="loky")(joblib.delayed(describe)(a, i) for i in range(2))
             for r in res:
-                ok = (r["dtype"] == str(a.dtype) and tuple(r["shape"]) == a.shape and r["bytes"] == np.asarray(a).tobytes(order="C").hex())
+                ok = (r["dtype"] == str(a.dtype) and tuple(r["shape"]) == a.shape and r["bytes"] == content(a))
                 limit = None if mx is None else (1024 if mx == "1K" else mx)
                 expect_mm = limit is not None and nbytes > limit and a.dtype != np.dtype(object)
                 out.append({"dtype": dname, "shape": list(shape), "layout": layout, "max_nbytes": mx, "ok": ok, "type": r["type"],
